@@ -49,3 +49,46 @@ class LoopSpec(object):
             if I.truth(I.eval(node.test, frame)):
                 raise PathEnd('guard true in exit branch')
             I.exec_block(node.orelse, frame)
+
+
+class ForSpec(object):
+    """Contract for `for target in iterable:` over a sequence of SYMBOLIC length.
+
+    length(I, iterable)      -> SInt / int      number of elements n
+    element(I, iterable, j)  -> value            the j-th element (abstract)
+    invariant(I, frame, j)   -> bool-ish         holds before the iteration with index j (0 <= j <= n)
+    havoc(I, frame, j)                           make everything the loop modifies arbitrary (j: the index reached)
+
+    Verification scheme: invariant(0) on entry; for an ARBITRARY index 0 <= j < n assume invariant(j), run the
+    body once on element j, check invariant(j + 1); after the loop assume invariant(n).  `break`, `return` and
+    exceptions leave from the arbitrary iteration with the state reached there.  Termination: n - j.
+    """
+
+    def __init__(self, label, length, element, invariant, havoc):
+        self.label, self.length, self.element = label, length, element
+        self.invariant, self.havoc = invariant, havoc
+
+    def run(self, I, node, frame):
+        E = I.E
+        it = I.eval(node.iter, frame)
+        n = self.length(I, it)
+        E.notes.append('loop contract %s (for-loop invariant over the element index)' % self.label)
+        E.check('%s.inv-entry' % self.label, self.invariant(I, frame, 0), kind='loop')
+        b = E.new_bool('%s.iterate' % self.label)
+        if E.decide(b.t):
+            j = E.new_int('%s.j' % self.label, 0, None)
+            E.assume(j < n)
+            self.havoc(I, frame, j)
+            E.assume(self.invariant(I, frame, j))
+            I.assign(node.target, self.element(I, it, j), frame)
+            try:
+                I.exec_block(node.body, frame)
+            except _Break:
+                return
+            except _Continue:
+                pass
+            E.check('%s.inv-preserved' % self.label, self.invariant(I, frame, j + 1), kind='loop')
+            raise PathEnd('loop body verified')
+        self.havoc(I, frame, n)
+        E.assume(self.invariant(I, frame, n))
+        I.exec_block(node.orelse, frame)
